@@ -1,11 +1,11 @@
 package props
 
 import (
-	"strings"
 	"encoding/binary"
 	"encoding/json"
 	"fmt"
 	"math/rand"
+	"strings"
 	"time"
 
 	"verif/harness/cbsim"
